@@ -5,6 +5,7 @@ package main
 import (
 	"fmt"
 	"go/ast"
+	"go/constant"
 	"go/token"
 	"go/types"
 	"strings"
@@ -143,7 +144,28 @@ func ruleFlagBitsIndependent(rule string) func(*Ctx) {
 						}
 					}
 				}
-				c.verdictIf(len(foreign) == 0, rule, st.In, "store "+fieldName, st.Node.Pos(), "set from its own flag bit only", "FileFlags."+fieldName+" is set only when additionally "+strings.Join(foreign, ", ")+": combining the flags (O_APPEND|O_TRUNC) silently drops one of them")
+				// the access mode must not matter either: evaluate the enclosing conditions for every way of opening for
+				// writing (O_WRONLY, O_RDWR) with the flag's own bit set; none of them may be definitely false
+				if len(foreign) == 0 {
+					if flagV := paramVar(st.In, "flag"); flagV != nil {
+						ownBit, ok1 := osFlagValue(c, own)
+						wr, ok2 := osFlagValue(c, "O_WRONLY")
+						rw, ok3 := osFlagValue(c, "O_RDWR")
+						if ok1 && ok2 && ok3 {
+							for _, mode := range []struct {
+								name string
+								v    int64
+							}{{"O_WRONLY", wr}, {"O_RDWR", rw}} {
+								for _, cl := range enclosingCondsFlow(info, st.In.Body(), st.Node) {
+									if known, val := evalFlagCond(info, cl.e, flagV, mode.v|ownBit); known && val != cl.pos {
+										foreign = append(foreign, fmt.Sprintf("the access mode is not %s (%s is %v for %s|%s)", mode.name, exprString(cl.e), val, mode.name, own))
+									}
+								}
+							}
+						}
+					}
+				}
+				c.verdictIf(len(foreign) == 0, rule, st.In, "store "+fieldName, st.Node.Pos(), "set from its own flag bit only", "FileFlags."+fieldName+" is set only when additionally "+strings.Join(foreign, ", ")+": combining the flags (O_APPEND|O_TRUNC, or O_RDWR|O_TRUNC as Create() does) silently drops one of them")
 			}
 		}
 		if n < 2 {
@@ -765,4 +787,84 @@ func ruleCLIFlagsBound(rule string) func(*Ctx) {
 			c.unresolved("only %d viper reads found in the command closures", n)
 		}
 	}
+}
+
+// osFlagValue: the value of os.<name> (an open flag constant).
+func osFlagValue(c *Ctx, name string) (int64, bool) {
+	k, ok := c.extObj("os", name).(*types.Const)
+	if !ok {
+		return 0, false
+	}
+	return constant.Int64Val(k.Val())
+}
+
+// evalFlagCond evaluates a boolean condition over the integer parameter flagV for one concrete value of it. Only
+// constants, flagV, the operators & | ^ &^ == != && || ! and parentheses are understood; anything else is unknown.
+func evalFlagCond(info *types.Info, e ast.Expr, flagV *types.Var, val int64) (known, value bool) {
+	var evalInt func(e ast.Expr) (int64, bool)
+	evalInt = func(e ast.Expr) (int64, bool) {
+		e = ast.Unparen(e)
+		if tv, ok := info.Types[e]; ok && tv.Value != nil && tv.Value.Kind() == constant.Int {
+			return constant.Int64Val(tv.Value)
+		}
+		switch x := e.(type) {
+		case *ast.Ident:
+			if info.Uses[x] == types.Object(flagV) {
+				return val, true
+			}
+		case *ast.BinaryExpr:
+			a, ok1 := evalInt(x.X)
+			b, ok2 := evalInt(x.Y)
+			if !ok1 || !ok2 {
+				return 0, false
+			}
+			switch x.Op {
+			case token.AND:
+				return a & b, true
+			case token.OR:
+				return a | b, true
+			case token.XOR:
+				return a ^ b, true
+			case token.AND_NOT:
+				return a &^ b, true
+			}
+		case *ast.CallExpr:
+			// int(flag) and similar conversions
+			if tv, ok := info.Types[x.Fun]; ok && tv.IsType() && len(x.Args) == 1 {
+				return evalInt(x.Args[0])
+			}
+		}
+		return 0, false
+	}
+	e = ast.Unparen(e)
+	switch x := e.(type) {
+	case *ast.UnaryExpr:
+		if x.Op == token.NOT {
+			k, v := evalFlagCond(info, x.X, flagV, val)
+			return k, !v
+		}
+	case *ast.BinaryExpr:
+		switch x.Op {
+		case token.LAND, token.LOR:
+			k1, v1 := evalFlagCond(info, x.X, flagV, val)
+			k2, v2 := evalFlagCond(info, x.Y, flagV, val)
+			if x.Op == token.LAND {
+				if (k1 && !v1) || (k2 && !v2) {
+					return true, false
+				}
+				return k1 && k2, true
+			}
+			if (k1 && v1) || (k2 && v2) {
+				return true, true
+			}
+			return k1 && k2, false
+		case token.EQL, token.NEQ:
+			a, ok1 := evalInt(x.X)
+			b, ok2 := evalInt(x.Y)
+			if ok1 && ok2 {
+				return true, (a == b) == (x.Op == token.EQL)
+			}
+		}
+	}
+	return false, false
 }
